@@ -106,7 +106,7 @@ def run(tier):
     sd = H.seed()
     for b in BUILDS:
         H.build(b)
-    runs = int(os.environ.get("VERIF_RUNS", 12000 if tier == "quick" else 200000))
+    runs = int(os.environ.get("VERIF_RUNS", 100000 if tier == "quick" else 1500000))
     chunk = max(1, min(1000, runs // (H.WORKERS)))
     ranges = [(a, min(a + chunk, runs)) for a in range(0, runs, chunk)]
     jobs = [(b, a, e) for (a, e) in ranges for b in BUILDS]
